@@ -1,4 +1,4 @@
-From PV Require Import Lib.Base Model.Prng Model.Core Model.Experiment.
+From PV Require Import Lib.Base Model.Prng Model.Core Model.Experiment Model.ExperimentAbort.
 From PV Require Model.Npc Model.WY.
 Open Scope Q_scope.
 
@@ -31,10 +31,18 @@ Fixpoint check_run (e : exp) (ops : list op) (exps : list expect) : bool :=
 
 Inductive case :=
   | History (e : exp) (ops : list op) (exps : list expect)
-  | TestFnCase (f : testfn) (g : list Z) (resp : list (list Q)) (impl : result Q).
+  | TestFnCase (f : testfn) (g : list Z) (resp : list (list Q)) (impl : result Q)
+  (* a call aborted inside its repetition loop after [j] completed randomizations (Model/ExperimentAbort.v): the assignment the
+     implementation left behind, and the answers it consumed (the state's generator holds exactly those: none may be left) *)
+  | AbortCase (e : exp) (in_place : bool) (j : nat) (left_behind : list Z).
 
 Definition check_case (c : case) : bool :=
   match c with
   | History e ops exps => check_run e ops exps
   | TestFnCase f g resp impl => res_eqb (fun a b => close tol a b) (eval_test f g resp) impl
+  | AbortCase e ip j g' =>
+      match abort_step e ip None (gen e) j with
+      | Ok e' => zl_eq (group e') g' && (if ip then match gen e' with nil => true | _ => false end else true)
+      | Err _ => false
+      end
   end.
